@@ -1,6 +1,7 @@
 package main
 
 import (
+	"strings"
 	"bufio"
 	"encoding/json"
 	"flag"
@@ -57,6 +58,32 @@ func c01Tree(cs int64, forceCustom int) (*Tree, bool) {
 		custom = false
 	}
 	top := t.Layers[len(t.Layers)-1]
+	// transformer configurations: extra field specs for custom kinds are merged into (a copy of) the built-in defaults
+	for _, L := range t.Layers {
+		if r.Intn(3) != 0 {
+			continue
+		}
+		var cfg strings.Builder
+		if r.Intn(2) == 0 {
+			cfg.WriteString("commonAnnotations:\n- path: spec/annos\n  kind: " + pickS(r, []string{"MyKind", "OtherKind", "AKind"}) + "\n  create: true\n")
+		}
+		if r.Intn(2) == 0 {
+			cfg.WriteString("commonLabels:\n- path: spec/lbls\n  kind: " + pickS(r, []string{"MyKind", "AKind"}) + "\n  create: true\n")
+		}
+		if r.Intn(3) == 0 {
+			cfg.WriteString("namePrefix:\n- path: spec/ref\n  kind: MyKind\n")
+		}
+		if r.Intn(3) == 0 {
+			cfg.WriteString("images:\n- path: spec/img\n  kind: " + pickS(r, []string{"MyKind", "BKind"}) + "\n")
+		}
+		if r.Intn(3) == 0 {
+			cfg.WriteString("nameReference:\n- kind: ConfigMap\n  fieldSpecs:\n  - path: spec/cmRef\n    kind: MyKind\n")
+		}
+		if cfg.Len() > 0 {
+			L.Files["tcfg.yaml"] = cfg.String()
+			L.Kust["configurations"] = []interface{}{"tcfg.yaml"}
+		}
+	}
 	if custom {
 		top.Files["schema.yaml"] = customSchemaYAML
 		top.Kust["openapi"] = Obj{"path": "schema.yaml"}
